@@ -117,7 +117,8 @@ def cases(rng, tier):
     b = urlgen.base_parts()
     # regression corpus: inputs on which canonicalize_url used not to be idempotent
     for segs, q in [(["%2541"], None), (["%7F"], None), (["%C2%85"], None), (["%2F"], None), (["a", ".."], [["q", "1"]]),
-                    (["a", "%2E%2E", "b"], None), (["a b"], None), (["%41"], [["%41", "%42"]])]:
+                    (["a", "%2E%2E", "b"], None), (["a b"], None), (["%41"], [["%41", "%42"]]),
+                    (["a\xa0b"], None), (["x\u3000y"], [["k\u2028", "v\xa0w"]])]:
         for quoted, sf in OPTS:
             for t in TN:
                 yield _mk(urlgen.with_(b, segments=segs, query=q), [t], 1, quoted, sf)
